@@ -588,6 +588,11 @@ __CPROVER_requires(edge_idx < m_edges_n && SG < gsize && SG2 < gsize)
 __CPROVER_requires(E_OUT(edge_idx) == SIZE_MAX || E_WF(edge_idx))
 __CPROVER_assigns(__CPROVER_object_whole(m_receivers), __CPROVER_object_whole(m_receivers_distance))
 __CPROVER_ensures(E_OUT(edge_idx) != SIZE_MAX ==> DRAINS_OUT(edge_idx))
+/* C02 (filled level = spill level), structural premise: the depression is later filled along the new receivers up to the level of the node the pit is
+ * routed to; the pit may be linked STRAIGHT to the outflow pass node only when the inflow pass node is not higher than it -- otherwise the path must go
+ * through the higher, inflow-side pass node (or the fill stops below the pass elevation max(e_in, e_out)): seeded change C02_4 */
+__CPROVER_ensures((E_OUT(edge_idx) != SIZE_MAX && REC(E_PIT(edge_idx)) == E_OUT(edge_idx) && E_PIT(edge_idx) != E_IN(edge_idx))
+                  ==> !(elevation[E_IN(edge_idx)] > elevation[E_OUT(edge_idx)]))
 /* frame: only nodes of the inflow basin are re-routed */
 __CPROVER_ensures((E_OUT(edge_idx) == SIZE_MAX || basins[SG] != E_BIN(edge_idx)) ==> (REC(SG) == __CPROVER_old(REC(SG)) && SAME_D(DIST(SG), __CPROVER_old(DIST(SG)))))
 __CPROVER_ensures((E_OUT(edge_idx) == SIZE_MAX || basins[SG2] != E_BIN(edge_idx)) ==> (REC(SG2) == __CPROVER_old(REC(SG2)) && SAME_D(DIST(SG2), __CPROVER_old(DIST(SG2)))))
@@ -1036,7 +1041,8 @@ EXPERIMENTAL = G_KR_LOOP
 GROUPS = {"C15": [G_UF_FIND, G_UF_MERGE] + G_UF_LINK + [G_UF_RESIZE, G_UF_CLEAR, G_UF_PUSH, G_KR_CMP, G_KR_STEP, G_KR_TREE] + CB_ROOT_GROUPS + CB_GROUPS,
           # the root of the basin tree and the per-call resets decide whether every depression is re-routed (C01) and filled to its spill (C02)
           "C01": [G_SB_STEP, G_SB_LOOP] + CB_ROOT_GROUPS + [g for g in CB_GROUPS if g.tier == "quick"],
-          "C02": CB_ROOT_GROUPS + [g for g in CB_GROUPS if g.tier == "quick"]}
+          # C02: the spill-level premise of the `basic` re-routing (straight link only when the inflow pass node is not the higher one) is a clause of G_SB_STEP
+          "C02": [G_SB_STEP] + CB_ROOT_GROUPS + [g for g in CB_GROUPS if g.tier == "quick"]}
 # keep-alive: goto-instrument aborts on --replace-call-with-contract of a function that is never called.  So that a change which
 # REMOVES a call (e.g. drops a reset) is judged by the contract instead of breaking the tool chain, every harness ends with an
 # unreachable call of each callee named in `replace`.
